@@ -165,7 +165,12 @@ for set_type in (set, frozenset):
 
 register_node_traverser(
     bytes,
-    flatten_fn=lambda x: ((x.decode('raw_unicode_escape'),), None),
+    # Decode with latin-1 (a 1:1 byte <-> code point mapping). Decoding with
+    # 'raw_unicode_escape' would interpret escape-like byte sequences such as
+    # b'\\u0041', which does not round-trip. Encoding with
+    # 'raw_unicode_escape' maps code points < 256 back to the same bytes, and
+    # keeps documents written by older versions loadable.
+    flatten_fn=lambda x: ((x.decode('latin-1'),), None),
     unflatten_fn=lambda values, _: values[0].encode('raw_unicode_escape'),
     path_elements_fn=lambda x: (IdentityElement(),),
 )
